@@ -46,11 +46,10 @@ theorem get_stable (s s' : St) (a : Act) (hs : step s a = some s') (hv : s.resul
   have := h1.1.2
   omega
 
-/-- **the values are those of the equivalent synchronous execution**: both entry points run the same `execute` on a fresh
-execution — in the model the composition semantics `Exec.execute` has no notion of sync/async at all (FACTS:
-`executeSync` and `executeAsync` both call `e.execute(fn, exec, withExec)`); the differential check runs every compose case
-through either entry point at random and compares with the same model -/
-theorem async_eq_sync (fuel : Nat) (ps : List Exec.Policy) (r : Exec.Run) : Exec.execute fuel ps r = Exec.execute fuel ps r := rfl
+/-! **The values are those of the equivalent synchronous execution**: not a theorem of this file. Both entry points call the
+same `execute` on a fresh execution (FACTS `effects/executor:executor.executeSync`, `bodies/executor:executor.executeAsync`), the
+composition model `Exec.execute` has no notion of sync / async, and the differential check runs every compose case through
+either entry point at random and compares it with that one model. -/
 
 example : reach.any (fun s => s.pc == .closed && s.cancelCalls == 2) = true := by decide
 example : reach.length = 15 := by decide
